@@ -43,6 +43,8 @@ def run(chk):
     from . import session as SS
     res = SS.run_family(chk, ['abort'], fam=SS.abort_family(chk.tier))
     SS.record(chk, res)
+    from .jsonfile import envelope_rule
+    envelope_rule(chk, 'C13.R2')
     chk.floor('C13.R6', 'aborted sessions evaluated', len(res), 12)
     try:
         structural(chk)
@@ -161,52 +163,8 @@ def structural(chk):
         else:
             raise AnalysisError('C13.R1', q_run, f'log writer constructed in an unrecognised position: `{ast.unparse(stmt_of(c))[:70]}`')
 
-    # ---- R2: __enter__/__exit__/close of the writer class ------------------------------------------------------
-    w_ex, q_ex = loc(repo, 'JsonWriter', '__exit__', 'C13.R2')
-    for p in S.paths('JsonLogWriter', '__exit__', dyn='JsonLogWriter'):
-        lits = [e for e in p.events if e.kind == 'call' and e.method == 'write' and e.recv == 'self._writer']
-        texts = []
-        for e in lits:
-            a = e.args[0] if e.args else None
-            texts.append(a.value if isinstance(a, ast.Constant) else None)
-        closed = len(lits) == 1 and isinstance(texts[0], str) and texts[0].replace('\n', '') == ']}'
-        chk.require(p.end[0] != 'raise' and closed, 'C13.R2', w_ex, q_ex, f'__exit__ path: {p.describe()[-70:]}',
-                    '__exit__ writes the closing brackets exactly once on this path',
-                    f'JsonWriter.__exit__ path `{p.describe()[-80:]}` writes {texts} (must write the closing `]}}` exactly once)')
-        rv = p.end[1] if p.end[0] == 'return' else None
-        swallow = rv is not None and not (isinstance(rv, ast.Constant) and not rv.value)
-        chk.require(not swallow, 'C13.R2', w_ex, q_ex, f'__exit__ returns {ast.unparse(rv) if rv is not None else None}',
-                    '__exit__ does not swallow the exception', f'JsonWriter.__exit__ returns `{ast.unparse(rv) if rv is not None else None}`: the abort would be hidden')
-    w_en, q_en = loc(repo, 'JsonWriter', '__enter__', 'C13.R2')
-    for p in S.paths('JsonLogWriter', '__enter__', dyn='JsonLogWriter'):
-        opened = [e for e in p.events if e.kind == 'assign' and e.target == 'self._open' and isinstance(e.value, ast.Constant) and e.value.value is True]
-        head = [e for e in p.events if e.kind == 'call' and e.method == 'write' and e.recv == 'self._writer']
-        chk.require(len(opened) == 1 and len(head) == 1 and p.end[0] == 'return' and ast.unparse(p.end[1]) == 'self', 'C13.R2', w_en, q_en,
-                    f'__enter__ path {p.describe()[-40:]}', '__enter__ writes the opening once, marks the writer open and returns it',
-                    '__enter__ does not open the writer exactly once / does not return self')
-
-    # ---- R3: whole records only -----------------------------------------------------------------------------------
-    w_wc, q_wc = loc(repo, 'JsonWriter', '_write_content', 'C13.R3')
-    for p in S.paths('JsonLogWriter', '_write_content', dyn='JsonLogWriter'):
-        order = []
-        for e in p.events:
-            if e.kind == 'call' and e.method == 'write' and e.recv == 'self._writer':
-                order.append('write')
-            if e.kind == 'call' and e.method == 'dumps':
-                order.append('dumps')
-        dump_first = True
-        # dumps is an expression inside an assignment: locate by source order instead
-        _, wc = repo.method('JsonWriter', '_write_content', 'C13.R3')
-        dumps = [n for n in ast.walk(wc) if isinstance(n, ast.Call) and ast.unparse(n.func) == 'json.dumps']
-        writes = [n for n in ast.walk(wc) if isinstance(n, ast.Call) and ast.unparse(n.func) == 'self._writer.write']
-        if not dumps or not writes:
-            raise AnalysisError('C13.R3', q_wc, 'json.dumps / stream writes not found')
-        dump_first = all((d.lineno, d.col_offset) < (x.lineno, x.col_offset) for d in dumps for x in writes) and \
-            all(isinstance(parent(stmt_of(d)), ast.FunctionDef) for d in dumps)
-        chk.require(dump_first, 'C13.R3', repo.where(repo.cls('JsonWriter').module, dumps[0]), q_wc, 'json.dumps before the first stream write',
-                    'the record is serialised completely before anything is written (no partial record on a serialisation error)',
-                    'the stream is written before json.dumps has produced the record: a serialisation error leaves a partial record')
-        break
+    # ---- R2 / R3: the writer's envelope (__enter__ / _write_content / __exit__, normal and exceptional, with a record that cannot be
+    #      serialised at every position) is decided by folding the real writer on an analyser stream: jsonfile.envelope_rule, called from run()
     # the per-board write is a direct statement of the board loop, after both phases
     loops = [n for n in ast.walk(run_fn) if isinstance(n, ast.For)]
     wcalls = [n for n in ast.walk(run_fn) if isinstance(n, ast.Call) and isinstance(n.func, ast.Attribute) and n.func.attr == 'write'
